@@ -352,6 +352,9 @@ def run(ctx, rep):
     rep.rule("R10.13", "messages leave in the order they were issued: every message is enqueued before the try-lock and the queue is "
                        "drained first-in first-out (= R12.2, R12.3, R12.5)")
     K.share(ctx, rep, "c12", lambda o: o.rule in ("R12.2", "R12.3", "R12.5"), "R10.13", floor=3)
+    # a release notice whose transmission fails is not silently lost on a connection that stays open (the proxy's finalizer
+    # swallows the error): a failed write closes the stream (= R05.3)
+    K.share(ctx, rep, "c05", lambda o: o.rule == "R05.3" and ".write:" in o.key, "R10.13", floor=2)
     K.share(ctx, rep, "c03", lambda o: o.rule == "R03.2" and "is never refused" in o.key, "R10.7", floor=3)
 
 
